@@ -133,6 +133,18 @@ CHECKS["C11"] = dict(
          "move when nothing vetoes and the sub-moves share one labelling (admissible oracle answers).",
     ref="§4 C11")
 
+CHECKS["C03"] = dict(
+    technique="Coq proof, polymorphic in positions and per-atom data (Model/Context.v + Model/Atoms.v, Proofs/ContextProofs.v, Props/C03.v: "
+              "list induction; delete/reinsert inverse law; invariant lifted to every accept/reject history) + functional correspondence "
+              "of Context.revert/save (vm_compute on tokenised rows) with the state of real simulations after each trial",
+    text="Theorems for every row type and every history: a rejected displacement-type trial (any number of moves, any new positions), a "
+         "rejected insertion trial (any number of particles of any size) and a rejected deletion trial (any duplicate-free in-range "
+         "index set collected in one frame) return rows bit for bit, leave nothing pending and the counter unchanged; acceptance "
+         "applies the pending counter change; the invariant holds at every position of any admissible history. Refuted (witness by "
+         "vm_compute): two deletions in two index frames - the open finding for plain composites holding two exchange moves. "
+         "Partial: a displacement followed by an exchange inside one plain composite is covered by the tie, not by a theorem.",
+    ref="§4 C03")
+
 NA_REASON = "check not built yet in this round (see DESIGN.md §8 order of construction); no weaker technique substituted"
 
 
